@@ -35,4 +35,10 @@ class Ref(Expression):
         out += (STATUS, RESULT, POS) << Yield((CALL, func, POS))
 
     def argumentize(self, out, flags):
+        # A rule passed as an argument is looked up like any other reference:
+        # through the context, so that a grammar that extends this one and
+        # overrides the rule is the one that gets called.
+        is_super = self.name.startswith('super.')
+        if flags.uses_context and not self.is_local and not is_super:
+            return Code(f'_ctx.{self.resolved}')
         return Code(self.resolved)
